@@ -583,14 +583,13 @@ fn normalise(f: &F, obs: &mut Obs) -> F {
             s.clone()
         }
     }
+    // Only a sequence whose *whole* text is empty is ambiguous ([""] and [] are both the empty text). With two
+    // or more elements an empty element is unambiguous on the wire (`a,`, `,`, `a,,b`) and must round-trip.
     match f {
         F::OptStr(o) => F::OptStr(opt(o, obs)),
         F::OptName(o) => F::OptName(opt(o, obs)),
-        F::VecStr(v) => F::VecStr(v.iter().map(|s| elem(s, obs)).collect()),
+        F::VecStr(v) if v.len() == 1 => F::VecStr(v.iter().map(|s| elem(s, obs)).collect()),
         F::Tup1(a) => F::Tup1(elem(a, obs)),
-        F::Tup2(a, b) => F::Tup2(elem(a, obs), *b),
-        F::Tup2s(a, b) => F::Tup2s(elem(a, obs), elem(b, obs)),
-        F::Tup5(a, b, c, d, e) => F::Tup5(elem(a, obs), *b, elem(c, obs), *d, elem(e, obs)),
         other => other.clone(),
     }
 }
@@ -912,7 +911,7 @@ fn f64_bits() -> impl Strategy<Value = u64> {
     ]
 }
 fn seq_len() -> impl Strategy<Value = usize> {
-    prop_oneof![1 => Just(0usize), 2 => Just(1usize), 3 => Just(2usize), 2 => Just(5usize)]
+    prop_oneof![1 => Just(0usize), 2 => Just(1usize), 3 => Just(2usize), 1 => Just(3usize), 2 => Just(5usize)]
 }
 fn field() -> BoxedStrategy<F> {
     let ints = prop_oneof![
@@ -936,8 +935,8 @@ fn field() -> BoxedStrategy<F> {
     let tuples = prop_oneof![
         2 => ustr(1).prop_map(F::Tup1),
         3 => (ustr(1), ints!(i32)).prop_map(|(a, b)| F::Tup2(a, b)),
-        3 => (ustr(1), ustr(1)).prop_map(|(a, b)| F::Tup2s(a, b)),
-        3 => (ustr(1), ints!(i64), ustr(1), ints!(u8), ustr(1)).prop_map(|(a, b, c, d, e)| F::Tup5(a, b, c, d, e)),
+        3 => (ustr(0), ustr(0)).prop_map(|(a, b)| F::Tup2s(a, b)),
+        3 => (ustr(0), ints!(i64), ustr(1), ints!(u8), ustr(0)).prop_map(|(a, b, c, d, e)| F::Tup5(a, b, c, d, e)),
     ];
     prop_oneof![
         2 => any::<bool>().prop_map(F::Bool),
@@ -956,7 +955,7 @@ fn field() -> BoxedStrategy<F> {
         2 => ints!(u64).prop_map(F::Id),
         3 => ustr(0).prop_map(F::Name),
         1 => Just(F::Unit),
-        10 => seq_len().prop_flat_map(|n| vec(ustr(1), n)).prop_map(F::VecStr),
+        10 => seq_len().prop_flat_map(|n| vec(prop_oneof![6 => ustr(1), 1 => Just(String::new())], n)).prop_map(F::VecStr),
         7 => seq_len().prop_flat_map(|n| vec(ints!(i64), n)).prop_map(F::VecI64),
         8 => tuples,
     ]
@@ -990,7 +989,7 @@ impl Property for C09 {
     const ID: &'static str = "C09";
     const RULE: &'static str = "generated: (a) Roundtrip(value) and (b) Decode(value, encoder choices). Values: one field of a catalogue type between two neighbours (`W<T> {a: u8, x: T, z: String}`, T ∈ bool, i8…u64, i128/u128, f32, f64, char, String, Option<String|i64|bool|char|f64|newtype>, unit enums plain / kebab-case / snake_case, Option<enum>, newtypes over u64 and String, (), Vec<String>, Vec<i64>, tuples (String,), (String,i32), (String,String), (String,i64,String,u8,String); sequences of 0, 1, 2, 5 elements), a 21-field struct of all scalar types together, or a BTreeMap<String,String>; integers with MIN/MAX/0/±1 bias, floats over all bit patterns (one NaN), strings/chars/keys over all Unicode with reserved characters over-represented. (a) to_string then from_bytes must give the value back (compared through Debug: floats by shortest round-tripping text, all NaNs alike) whenever to_string returns Ok. (b) an independent encoder writes the value's pairs `k=v` (per character: raw when RFC 3986 allows it in a query and it is not `&`, `=`, `%` or — inside a sequence element — `,`; otherwise %XX in either hex case; number / bool texts stay raw except in a 10 % sub-stream `escaped-literals`; a pair's escape choices depend on its key, not on its position), permutes them and inserts 0–3 unknown pairs; from_bytes into the type must give the value, and `GET /q?<text>` through the real parser and router must make `req.query.iter()` yield exactly the generated pairs in wire order (`+` stays `+`). Failure keys are root-cause classes, refined by re-decoding parts of the failing text: `plus-not-kept-literal` / `escaped-literal` / `field-order` / `unknown-pairs` when undoing exactly that repairs the outcome; else the field type; for sequences the element class when that element's own wire form fails as a one-element Vec, else the length class; for enums `escaped-variant-name` when the wire form of the variant contains an escape. Non-trivial = a string/char/key needing escaping, a sequence with ≥ 2 elements, a boundary number, or a permuted/extended encoding; distinct by case.";
     const ASSUMPTIONS: &'static [&'static str] = &[
-        "§5.2: the empty text means None / empty sequence — Some(\"\") and empty strings as sequence elements are never checked (replaced and counted under `excluded`)",
+        "§5.2: the empty text means None / empty sequence — Some(\"\") and a one-element sequence holding the empty string are never checked (replaced and counted under `excluded`); empty elements of longer sequences are checked",
         "128-bit integers: the serializer refuses them (serde default); counted under the label `serializer-refused`, no decoding is demanded",
         "keys of generated encodings are non-empty (a part with an empty key is documented as invalid and skipped by the query iterator); an empty map key is only used in Roundtrip, where the statement's premise (`the serializer accepts it`) decides",
         "sequences are written comma-joined, elements escaped individually (the crate's own convention; RFC 3986 is silent on sequences)",
